@@ -11,14 +11,14 @@ import engine
 import c02
 
 LEVEL = "proof"
-ENGINE_PROPS = [("Props_C07.v", ["C07_cu_true", "C07_cu_false", "C07_cu_sound", "C07_cu_resume_inv", "C07_cu_resume"])]
+ENGINE_PROPS = [("Props_C07.v", ["C07_cu_true", "C07_cu_false", "C07_cu_sound", "C07_cu_resume_inv", "C07_cu_resume", "C07_cu_resume_iso"])]
 
 
 def run(ctx):
     ctx.trusted = engine.TRUSTED
     ctx.assumptions = engine.ASSUME + ["conditions are monotone combinations (and/or) of p(..), f(..)!, a = b over caller elements",
-                                       "C07_cu_resume_full (isomorphism with the direct close) is established per case against the reference "
-                                       "free model, not by a theorem about the engine model"]
+                                       "C07_cu_resume_iso (the resumed close is isomorphic to the direct close) is proved for the engine model under the typing "
+                                       "side conditions WellTyped / FamErase; per case it is also established against the reference free model"]
     ok_sem, ok_h = engine.build(ctx, ENGINE_PROPS)
     if not ok_h:
         return
